@@ -70,7 +70,11 @@ def build_message(m):
     for a in m.get("attachments", []):
         data = attachment_bytes(a)
         maintype, subtype = a["type"].split("/")
-        if maintype == "text":
+        if a.get("charset"):
+            # a text file in a legacy charset, attached as it is (base64) with the charset declared
+            msg.add_attachment(data, maintype=maintype, subtype=subtype, filename=a["name"])
+            list(msg.iter_attachments())[-1].set_param("charset", a["charset"])
+        elif maintype == "text":
             msg.add_attachment(data.decode("utf-8"), subtype=subtype, filename=a["name"])
         else:
             msg.add_attachment(data, maintype=maintype, subtype=subtype, filename=a["name"])
@@ -112,7 +116,7 @@ def mbox_bytes(messages, crlf=False):
         body = b"\n".join((b">" + ln if ln.startswith(b"From ") else ln) for ln in lines)
         if not body.endswith(b"\n"):
             body += b"\n"
-        out.append(b"From sender@example.org Fri Mar  1 12:0%d:00 2024\n" % (i % 10) + body + b"\n")
+        out.append(b"From " + m.get("envelope", "sender@example.org").encode("ascii") + b" Fri Mar  1 12:0%d:00 2024\n" % (i % 10) + body + b"\n")
     data = b"".join(out)
     return data.replace(b"\n", b"\r\n") if crlf else data
 
@@ -196,7 +200,8 @@ def judge_supported_attachments(r, m, source):
     want = []
     received = {att.filename: att.data.getvalue() for att in r.attachments}
     for a in m.get("attachments", []):
-        if a.get("fmt"):
+        from sharepoint2text.parsing.mime_types import MIME_TYPE_MAPPING as _MM
+        if a.get("fmt") or is_supported_file(a["name"]) or a["type"] in _MM:
             try:
                 # the documented rule: by file name, else by the declared MIME type; the attached file is the bytes as they arrived
                 # (exactness of those bytes is the attachments clause; text parts travel with the transport's line endings)
@@ -307,7 +312,10 @@ def _att_st():
                    "type": {"pdf": "application/pdf", "docx": "application/vnd.openxmlformats-officedocument.wordprocessingml.document",
                             "xlsx": "application/vnd.openxmlformats-officedocument.spreadsheetml.sheet", "txt": "text/plain", "csv": "text/csv", "html": "text/html"}[t[0]]})
     blob = st.tuples(st.binary(min_size=0, max_size=40), st.sampled_from(["blob.bin", "image.png", "no extension"])).map(lambda t: {"name": t[1], "hex": t[0].hex(), "type": "application/octet-stream"})
-    return st.one_of(doc, doc, blob)
+    legacy = st.tuples(st.sampled_from([("latin.csv", "text/csv", "iso-8859-1", "Größe;Preis\nTür;5\n"), ("umlaute.txt", "text/plain", "cp1252", "Straße – „Zitat“ 5 €\n"),
+                                        ("latin2.txt", "text/plain", "iso-8859-2", "Łódź żółć\n")]), st.integers(0, 99)).map(
+        lambda t: {"name": f"{t[1]}-{t[0][0]}", "hex": t[0][3].encode(t[0][2]).hex(), "type": t[0][1], "charset": t[0][2]})
+    return st.one_of(doc, doc, blob, legacy)
 
 
 @st.composite
@@ -327,6 +335,8 @@ def messages(draw, idx=0):
         "date": {"ts": draw(st.integers(946684800, 1893456000)), "tz": draw(st.sampled_from([0, 60, 120, -300, 330, 345, -720, 840]))},
         "message_id": f"<vf-{draw(st.integers(1, 10**9))}-{idx}@mail.example.org>", "in_reply_to": draw(st.sampled_from([None, "<parent-1@example.org>"])),
         "plain": plain, "html": html, "structure": structure, "attachments": atts,
+        # the sender of the mbox separator line need not be an address: MAILER-DAEMON (what mailbox.mbox writes), "-" (Thunderbird), a bare user name
+        "envelope": draw(st.sampled_from(["sender@example.org", "sender@example.org", "MAILER-DAEMON", "-", "nobody", "root"])),
     }
 
 
@@ -373,7 +383,7 @@ def validate(case):
         assert m["subject"] in SUBJECTS and m["structure"] in ("single", "alternative", "html-only", "related")
         for p in [m["from"]] + m["to"] + (m.get("cc") or []) + (m.get("bcc") or []) + (m.get("reply_to") or []):
             assert p[0] in NAMES and p[1].count("@") == 1 and p[1].split("@")[0] in ("alice", "bob.smith", "j.doe+tag", "info", "no-reply", "x_y") and p[1].split("@")[1] in ("example.org", "mail.example.com", "sub.domain.example.net")
-        assert m["to"]
+        assert m["to"] and m.get("envelope", "sender@example.org") in ("sender@example.org", "MAILER-DAEMON", "-", "nobody", "root")
         assert m["message_id"].startswith("<") and m["message_id"].endswith("@mail.example.org>")
         for b in (m.get("plain"), m.get("html")):
             if b:
@@ -382,6 +392,8 @@ def validate(case):
                 assert b["cte"] != "7bit" or b["text"].isascii()
         assert (m.get("plain") is not None) == (m["structure"] != "html-only") and (m.get("html") is not None) == (m["structure"] in ("alternative", "html-only", "related"))
         for a in m.get("attachments", []):
+            assert a.get("charset") in (None, "iso-8859-1", "cp1252", "iso-8859-2") and (a.get("charset") is None or (a.get("hex") is not None and a["type"].startswith("text/")))
+            assert a.get("charset") is None or a["name"].rsplit(".", 1)[-1] in ("csv", "txt")
             assert a["name"] and a["type"] in ("application/pdf", "application/vnd.openxmlformats-officedocument.wordprocessingml.document", "application/vnd.openxmlformats-officedocument.spreadsheetml.sheet",
                                                 "text/plain", "text/csv", "text/html", "application/octet-stream") and (a.get("hex") is not None or a["fmt"] in ("pdf", "docx", "xlsx", "txt", "csv", "html"))
             if a.get("fmt"):
